@@ -11,6 +11,7 @@ package buffer
 //@   requires reader != nil && size >= 0
 //@   ensures [len] len(reader.Msg) == size
 //@   ensures [advance-or-fresh] (arr(reader.Msg) == arr(old(reader.Msg)) && off(reader.Msg) == end(old(reader.Msg))) || fresh(arr(reader.Msg))
+//@   ensures [window] Advanced(reader.Msg, old(reader.Msg)) || arr(reader.Msg) > old(#alloc)
 //@   ensures [cap-end] !fresh(arr(reader.Msg)) ==> off(reader.Msg) + cap(reader.Msg) == off(old(reader.Msg)) + cap(old(reader.Msg))
 //@   ensures [stays-exposed] {C18} (wa <= old(#alloc) && Exposed(old(reader.Msg), wa, wi)) ==> Exposed(reader.Msg, wa, wi)
 //@   ensures [alloc-bound] {C04 C10} #maxalloc <= max(old(#maxalloc), max(size, 4096))
@@ -59,6 +60,7 @@ package buffer
 //@   ensures [alloc-bound] {C04 C10} #maxalloc <= max(old(#maxalloc), max(reader.MaxMessageSize, 4096))
 //@   ensures [no-overwrite] {C18} (wa <= old(#alloc) && Exposed(old(reader.Msg), wa, wi)) ==> mem(wa, wi) == old(mem(wa, wi))
 //@   ensures [stays-exposed] {C18} (wa <= old(#alloc) && Exposed(old(reader.Msg), wa, wi)) ==> Exposed(reader.Msg, wa, wi)
+//@   ensures [window] Advanced(reader.Msg, old(reader.Msg)) || arr(reader.Msg) > old(#alloc)
 //@   modifies reader.Buffer.#pos, arrayof(reader.header), reader.Msg, memtail(reader.Msg), #maxalloc, #nalloc
 
 //@ func (*Reader).ReadTypedMsg
@@ -76,7 +78,11 @@ package buffer
 //@   ensures [alloc-bound] {C04 C10} #maxalloc <= max(old(#maxalloc), max(reader.MaxMessageSize, 4096))
 //@   ensures [no-overwrite] {C18} (wa <= old(#alloc) && Exposed(old(reader.Msg), wa, wi)) ==> mem(wa, wi) == old(mem(wa, wi))
 //@   ensures [stays-exposed] {C18} (wa <= old(#alloc) && Exposed(old(reader.Msg), wa, wi)) ==> Exposed(reader.Msg, wa, wi)
-//@   modifies reader.Buffer.#pos, arrayof(reader.header), reader.Msg, memtail(reader.Msg), #maxalloc, #nalloc
+//@   ensures [window] Advanced(reader.Msg, old(reader.Msg)) || arr(reader.Msg) > old(#alloc)
+//@   ensures [in-count] (result.2 == nil ==> (#nIn == old(#nIn) + 1 && #lastIn == result.0)) && (result.2 != nil ==> (#nIn == old(#nIn) && #lastIn == old(#lastIn)))
+//@   ghostset #nIn = old(#nIn) + 1 if result.2 == nil
+//@   ghostset #lastIn = result.0 if result.2 == nil
+//@   modifies reader.Buffer.#pos, arrayof(reader.header), reader.Msg, memtail(reader.Msg), #maxalloc, #nalloc, #nIn, #lastIn
 
 //@ func (*Reader).Slurp
 //@   props C03 C10 C18 C04
@@ -106,6 +112,7 @@ package buffer
 //@   ensures [nulfree] result.1 == nil ==> nulfree(result.0)
 //@   ensures [terminator] result.1 == nil ==> mem(arr(old(reader.Msg)), off(old(reader.Msg)) + slen(result.0)) == 0
 //@   ensures [unterminated] result.1 != nil ==> (reader.Msg == old(reader.Msg) && result.0 == "")
+//@   ensures [err-kind] result.1 != nil ==> (result.1 != io.EOF && !isExceeded(result.1) && ErrTextOK(result.1))
 //@   modifies reader.Msg
 
 //@ func (*Reader).GetBytes
@@ -115,6 +122,7 @@ package buffer
 //@   ensures [short] len(old(reader.Msg)) < n ==> (result.1 != nil && result.0 == nil && reader.Msg == old(reader.Msg))
 //@   ensures [view] len(old(reader.Msg)) >= n ==> (result.1 == nil && arr(result.0) == arr(old(reader.Msg)) && off(result.0) == off(old(reader.Msg)) && len(result.0) == n)
 //@   ensures [advance] len(old(reader.Msg)) >= n ==> (arr(reader.Msg) == arr(old(reader.Msg)) && off(reader.Msg) == off(old(reader.Msg)) + n && len(reader.Msg) == len(old(reader.Msg)) - n)
+//@   ensures [err-kind] result.1 != nil ==> (result.1 != io.EOF && !isExceeded(result.1) && ErrTextOK(result.1))
 //@   modifies reader.Msg
 
 //@ func (*Reader).GetPrepareType
@@ -122,6 +130,7 @@ package buffer
 //@   requires reader != nil
 //@   ensures [short] len(old(reader.Msg)) < 1 ==> (result.1 != nil && reader.Msg == old(reader.Msg))
 //@   ensures [value] len(old(reader.Msg)) >= 1 ==> (result.1 == nil && result.0 == mem(arr(old(reader.Msg)), off(old(reader.Msg))) && len(reader.Msg) == len(old(reader.Msg)) - 1)
+//@   ensures [err-kind] result.1 != nil ==> (result.1 != io.EOF && !isExceeded(result.1) && ErrTextOK(result.1))
 //@   modifies reader.Msg
 
 //@ func (*Reader).GetUint16
@@ -130,6 +139,7 @@ package buffer
 //@   ensures [short] len(old(reader.Msg)) < 2 ==> (result.1 != nil && result.0 == 0 && reader.Msg == old(reader.Msg))
 //@   ensures [value] len(old(reader.Msg)) >= 2 ==> (result.1 == nil && result.0 == mbe16(arr(old(reader.Msg)), off(old(reader.Msg))))
 //@   ensures [advance] len(old(reader.Msg)) >= 2 ==> (arr(reader.Msg) == arr(old(reader.Msg)) && off(reader.Msg) == off(old(reader.Msg)) + 2 && len(reader.Msg) == len(old(reader.Msg)) - 2)
+//@   ensures [err-kind] result.1 != nil ==> (result.1 != io.EOF && !isExceeded(result.1) && ErrTextOK(result.1))
 //@   modifies reader.Msg
 
 //@ func (*Reader).GetUint32
@@ -138,6 +148,7 @@ package buffer
 //@   ensures [short] len(old(reader.Msg)) < 4 ==> (result.1 != nil && result.0 == 0 && reader.Msg == old(reader.Msg))
 //@   ensures [value] len(old(reader.Msg)) >= 4 ==> (result.1 == nil && result.0 == mbe32(arr(old(reader.Msg)), off(old(reader.Msg))))
 //@   ensures [advance] len(old(reader.Msg)) >= 4 ==> (arr(reader.Msg) == arr(old(reader.Msg)) && off(reader.Msg) == off(old(reader.Msg)) + 4 && len(reader.Msg) == len(old(reader.Msg)) - 4)
+//@   ensures [err-kind] result.1 != nil ==> (result.1 != io.EOF && !isExceeded(result.1) && ErrTextOK(result.1))
 //@   modifies reader.Msg
 
 // ---- Writer -------------------------------------------------------------
